@@ -148,6 +148,12 @@ def stepWorld1 (w : World) (fault : Option Nat) (fs : List String) : World × St
     match k.toNat?, parseKey? key with
     | some k, some key => if k ≤ w.writes.length then (w, showCrash (w.crash k key)) else (w, "bad-op")
     | _, _ => (w, "bad-op")
+  | [whoS, "probe", _what] =>
+    -- ListPage / Encrypt / Decrypt / Keyring: each entry point checks the sealed flag itself; nothing is served while sealed
+    let who? : Option Bool := if whoS = "a" then some false else if whoS = "b" then some true else none
+    match who? with
+    | some who => (w, if (if who then w.b else w.a).sealed then "err:sealed" else "served")
+    | none => (w, "bad-op")
   | whoS :: rest =>
     let who? : Option Bool := if whoS = "a" then some false else if whoS = "b" then some true else none
     match who?, parseOp? rest with
